@@ -3,15 +3,24 @@
 Generates random admissible constructor arguments as pure-JSON *specs*, builds the real objects and runs them on
 inputs suited to their kind, returning canonical JSON-able outcomes (so an object and its reloaded copy can be compared).
 
+API: discover, KINDS, covered, gen_spec(rng, cls=None, depth=4, avoid=()), gen_bad_spec, build, outcomes(obj, seed, n=6),
+spec_classes, spec_depth, spec_features, spec_hazards, is_deterministic, check_spec(spec, seed) (the C19 check of one spec),
+AVOIDABLE (known-defect triggers that ``avoid`` can switch off).  ``python c19_classes.py [--all]`` runs the self-test.
+
 Spec format (pure JSON):
-  object   {"t":"obj","cls":"votelib.evaluate.core.Plurality","args":{param: value-spec}}
+  object   {"t":"obj","cls":"votelib.evaluate.core.Plurality","args":{param: value-spec}}   (omitted param = default)
   values   {"t":"int","v":3} {"t":"bool","v":true} {"t":"none"} {"t":"str","v":"droop"} {"t":"frac","v":"7/5"}
            {"t":"dec","v":"0.05"} {"t":"list","v":[..]} {"t":"tuple","v":[..]} {"t":"dict","k":[..],"v":[..]}
            {"t":"callable","v":"votelib.component.quota.droop"}
   bad only {"t":"closure","v":"modified_first_coef"|"quota_constant"|"lambda"|"partial"|"constituency_keys", ...}
 
+Outcome encoding: numbers as exact Fraction strings, dict -> {"dict": [[k, v], ..] sorted by key}, set -> {"set": sorted},
+Tie -> {"tie": sorted}, candidate objects -> {"cand": class, "name": name}, exceptions -> {"err": type name}.
+Calls are limited to 0.5 s each (endless seat-levelling loops exist) - only on POSIX in the main thread.
+
 Stdlib + votelib only; all randomness comes from the ``rng`` passed in; no global mutable state.
 """
+import contextlib
 import functools
 import importlib
 import inspect
@@ -83,7 +92,6 @@ CONDORCET_NAMES = ['rankedpairs_winvotes', 'rankedpairs_margins', 'rankedpairs_p
                    'schulze', 'kemeny_young', 'minimax_winvotes', 'minimax_margins', 'minimax_pwo']
 ROUNDINGS = ['ROUND_DOWN', 'ROUND_HALF_UP', 'ROUND_HALF_EVEN', 'ROUND_CEILING', 'ROUND_FLOOR', 'ROUND_UP',
              'ROUND_HALF_DOWN']
-RESERVED_KEYS = ('type', 'class', 'callable')          # misread at load in str-keyed dicts; covered separately
 RANDOM_CLASSES = (_E + 'auxiliary.Sortitor', _E + 'auxiliary.RandomUnrankedBallotSelector',
                   'votelib.component.transfer.Hare')
 VOTE_TYPES = ['simple', 'ranked', 'approval', 'score', 'condorcet', 'nested', 'persons', 'parties']
@@ -123,26 +131,13 @@ class _G:
         self.r, self.avoid = rng, frozenset(avoid)
 
     # -- primitives
-    def p(self, x):
-        return self.r.random() < x
-
-    def pick(self, seq):
-        return seq[self.r.randrange(len(seq))]
-
-    def ok(self, tag):
-        return tag not in self.avoid
-
-    def I(self, lo, hi):
-        return {'t': 'int', 'v': self.r.randint(lo, hi)}
-
-    def B(self):
-        return {'t': 'bool', 'v': self.p(.5)}
-
-    def S(self, *choices):
-        return {'t': 'str', 'v': self.pick(choices)}
-
-    def opt(self, spec, p=.4):
-        return _OMIT if self.p(p) else spec
+    def p(self, x): return self.r.random() < x                                  # noqa: E704
+    def pick(self, seq): return seq[self.r.randrange(len(seq))]                 # noqa: E704
+    def ok(self, tag): return tag not in self.avoid                             # noqa: E704
+    def I(self, lo, hi): return {'t': 'int', 'v': self.r.randint(lo, hi)}       # noqa: E704,E743
+    def B(self): return {'t': 'bool', 'v': self.p(.5)}                          # noqa: E704
+    def S(self, *choices): return {'t': 'str', 'v': self.pick(choices)}         # noqa: E704
+    def opt(self, spec, p=.4): return _OMIT if self.p(p) else spec              # noqa: E704
 
     def frac(self, lo, hi):
         d = self.pick((2, 3, 5, 7, 10, 100))
@@ -180,14 +175,9 @@ class _G:
         n = self.pick(names)
         return {'t': 'str', 'v': n} if self.p(p_str) else {'t': 'callable', 'v': module + n}
 
-    def quota(self):
-        return self.named(QUOTAS, _QM)
-
-    def divisor(self, names=DIVISORS[:5] * 3 + DIVISORS[5:]):
-        return self.named(names, _DM)
-
-    def pairwin(self):
-        return self.named(PAIRWINS, _PM)
+    def quota(self): return self.named(QUOTAS, _QM)                             # noqa: E704
+    def divisor(self, names=DIVISORS[:5] * 3 + DIVISORS[5:]): return self.named(names, _DM)      # noqa: E704
+    def pairwin(self): return self.named(PAIRWINS, _PM)                         # noqa: E704
 
     def agg(self):
         return {'t': 'str', 'v': self.pick(AGG_NAMES)} if self.p(.5) else {'t': 'callable', 'v': self.pick(AGG_CALLABLES)}
@@ -207,17 +197,12 @@ class _G:
         b = _NONE if self.p(.35) else self.num(max(lo, hi - 2), hi + 1, exact)
         return {'t': 'tuple', 'v': [a, b]}
 
-    def lst(self, fn, lo, hi, t='list'):
-        return {'t': t, 'v': [fn() for _ in range(self.r.randint(lo, hi))]}
-
-    def dct(self, keys, valfn):
-        return {'t': 'dict', 'k': keys, 'v': [valfn() for _ in keys]}
+    def lst(self, fn, lo, hi, t='list'): return {'t': t, 'v': [fn() for _ in range(self.r.randint(lo, hi))]}   # noqa: E704
+    def dct(self, keys, valfn): return {'t': 'dict', 'k': keys, 'v': [valfn() for _ in keys]}          # noqa: E704
+    def name(self): return self.S('A', 'B', 'C', 'D', 'E', 'Alpha Party', 'Émile Zola', 'X-1', 'Greens')  # noqa: E704
 
     def intkeys(self, lo, hi, n):
         return [{'t': 'int', 'v': k} for k in sorted(self.r.sample(range(lo, hi + 1), n))]
-
-    def name(self):
-        return self.S('A', 'B', 'C', 'D', 'E', 'Alpha Party', 'Émile Zola', 'X-1', 'Greens')
 
     def seed(self):
         return self.I(0, 10 ** 6) if self.p(.85) else (_NONE if self.p(.5) else _OMIT)
@@ -550,10 +535,10 @@ def _build_table():
         leaf=False)
 
     def prop_bracket(g, d, k, vt):
-        prop = g.pick(('minority', 'region', 'tier', 'withdrawn', 'is_coalition', 'tags'))
+        prop = g.pick(('minority', 'region', 'tier', 'withdrawn', 'is_coalition', 'tags', 'weight'))
         keys = {'minority': [{'t': 'bool', 'v': True}, {'t': 'bool', 'v': False}], 'withdrawn': [{'t': 'bool', 'v': True}],
                 'is_coalition': [{'t': 'bool', 'v': True}], 'region': [{'t': 'str', 'v': 'N'}, {'t': 'str', 'v': 'S'}],
-                'tier': [{'t': 'int', 'v': 1}, {'t': 'int', 'v': 2}],
+                'tier': [{'t': 'int', 'v': 1}, {'t': 'int', 'v': 2}], 'weight': [g.num(0, 3), g.num(0, 3)],
                 'tags': [{'t': 'tuple', 'v': [{'t': 'str', 'v': 'x'}]}, {'t': 'tuple', 'v': []}]}[prop]
         keys = keys[:g.r.randint(1, len(keys))]
         return {'property': {'t': 'str', 'v': prop},
@@ -788,46 +773,33 @@ def _closure(v):
 
 def build(spec):
     """Construct the real votelib object (or plain value) from a spec."""
-    t = spec['t']
+    t, v = spec['t'], spec.get('v')
     if t == 'obj':
-        return _resolve(spec['cls'])(**{k: build(v) for k, v in spec['args'].items()})
-    if t in ('int', 'bool', 'str'):
-        return spec['v']
-    if t == 'none':
-        return None
-    if t == 'frac':
-        return Fraction(spec['v'])
-    if t == 'dec':
-        return Decimal(spec['v'])
-    if t == 'list':
-        return [build(x) for x in spec['v']]
-    if t == 'tuple':
-        return tuple(build(x) for x in spec['v'])
+        return _resolve(spec['cls'])(**{k: build(x) for k, x in spec['args'].items()})
     if t == 'dict':
         return dict(zip([build(x) for x in spec['k']], [build(x) for x in spec['v']]))
-    if t == 'callable':
-        return _resolve(spec['v'])
-    if t == 'closure':
-        return _closure(spec)
-    raise ValueError('unknown spec type %r' % (t,))
+    simple = {'int': lambda: v, 'bool': lambda: v, 'str': lambda: v, 'none': lambda: None, 'frac': lambda: Fraction(v),
+              'dec': lambda: Decimal(v), 'list': lambda: [build(x) for x in v], 'tuple': lambda: tuple(build(x) for x in v),
+              'callable': lambda: _resolve(v), 'closure': lambda: _closure(spec)}
+    if t not in simple:
+        raise ValueError('unknown spec type %r' % (t,))
+    return simple[t]()
 
 
 # ----------------------------------------------------------------------------------------------------------------------
 # spec inspection
 
 
+def _children(spec):
+    t = spec.get('t')
+    return list(spec['args'].values()) if t == 'obj' else spec['v'] if t in ('list', 'tuple') else \
+        spec['k'] + spec['v'] if t == 'dict' else []
+
+
 def _walk(spec):
     yield spec
-    t = spec.get('t')
-    if t == 'obj':
-        for v in spec['args'].values():
-            yield from _walk(v)
-    elif t in ('list', 'tuple'):
-        for v in spec['v']:
-            yield from _walk(v)
-    elif t == 'dict':
-        for v in spec['k'] + spec['v']:
-            yield from _walk(v)
+    for child in _children(spec):
+        yield from _walk(child)
 
 
 def spec_classes(spec):
@@ -835,14 +807,7 @@ def spec_classes(spec):
 
 
 def spec_depth(spec):
-    t = spec.get('t')
-    if t == 'obj':
-        return 1 + max([spec_depth(v) for v in spec['args'].values()] or [0])
-    if t in ('list', 'tuple'):
-        return max([spec_depth(v) for v in spec['v']] or [0])
-    if t == 'dict':
-        return max([spec_depth(v) for v in spec['k'] + spec['v']] or [0])
-    return 0
+    return (spec.get('t') == 'obj') + max([spec_depth(c) for c in _children(spec)] or [0])
 
 
 def spec_features(spec):
@@ -879,15 +844,55 @@ def is_deterministic(spec):
     return True
 
 
+def spec_hazards(spec):
+    """The known-defect triggers (names from AVOIDABLE, plus 'unrepresentable' for bad specs) present in a spec."""
+    out = set()
+
+    def inexact(v):
+        return v is not None and any(x.get('t') in ('frac', 'dec') for x in _walk(v))
+
+    def given(a, p):
+        return a.get(p, _NONE).get('t') != 'none'
+    for s in _walk(spec):
+        if s.get('t') == 'closure':
+            out.add('unrepresentable')
+        if s.get('t') != 'obj':
+            continue
+        short, a = s['cls'].rsplit('.', 1)[1], s['args']
+        pairs = {'VoteMagnitudeChecker': [('bounds', None)], 'ApprovalVoteValidator': [('vote_count_bounds', 'count_checker')],
+                 'RankedVoteValidator': [('total_vote_count_bounds', 'total_count_checker'),
+                                         ('rank_vote_count_bounds', 'rank_vote_count_checkers')],
+                 'EnumScoreVoteValidator': [('allowed_scorings', 'n_scorings_checker'), ('sum_bounds', 'sum_checkers')],
+                 'RangeVoteValidator': [('allowed_scorings', 'n_scorings_checker'), ('sum_bounds', 'sum_checkers'),
+                                        ('range', 'range_checker')]}.get(short, [])
+        if any(inexact(a.get(b)) and not (c and given(a, c)) for b, c in pairs):
+            out.add('checker_nonint_bounds')
+        if (short == 'RankedVoteValidator' and not given(a, 'rank_vote_count_checkers')) or \
+                (short in ('EnumScoreVoteValidator', 'RangeVoteValidator') and not given(a, 'sum_checkers')):
+            out.add('validator_defaultdict')
+        if short == 'STAR' and a.get('runoff_added_fraction', {}).get('t') in ('frac', 'dec'):
+            out.add('star_fraction')
+        if short == 'STAR' and a.get('unscored_value', {}).get('t') == 'str':
+            out.add('star_unscored_name')
+        if short == 'ThresholdOpenList' and given(a, 'quota_function') and 'quota_fraction' in a \
+                and build(a['quota_fraction']) != 1:
+            out.add('openlist_quota_fraction')
+    return sorted(out)
+
+
 # ----------------------------------------------------------------------------------------------------------------------
 # canonical outcomes
 
 
-def _enc(x, _d=0):
+def _enc(x, _d=0, full=False):
+    """Canonical JSON-able encoding; ``full`` spells out votelib objects with all their public attributes."""
     import votelib.candidate as vc
     import votelib.evaluate.core as vcore
     if _d > 25:
         return {'repr': 'too deep'}
+    if full and hasattr(x, '__dict__') and type(x).__module__.startswith('votelib') and _d < 8:
+        return {'obj': type(x).__name__,
+                'vars': [[k, _enc(v, _d + 1, True)] for k, v in sorted(vars(x).items()) if not k.startswith('_')]}
     if x is None or isinstance(x, (bool, str)):
         return x
     if isinstance(x, float):
@@ -898,54 +903,37 @@ def _enc(x, _d=0):
         except (ValueError, OverflowError, TypeError):
             return 'num:' + str(x)
     if isinstance(x, vcore.Tie):
-        return {'tie': sorted((_enc(i, _d + 1) for i in x), key=json.dumps)}
+        return {'tie': sorted((_enc(i, _d + 1, full) for i in x), key=json.dumps)}
     if isinstance(x, dict):
-        return {'dict': sorted(([_enc(k, _d + 1), _enc(v, _d + 1)] for k, v in x.items()), key=lambda kv: json.dumps(kv[0]))}
+        return {'dict': sorted(([_enc(k, _d + 1, full), _enc(v, _d + 1, full)] for k, v in x.items()), key=lambda kv: json.dumps(kv[0]))}
     if isinstance(x, (list, tuple)):
-        return [_enc(i, _d + 1) for i in x]
+        return [_enc(i, _d + 1, full) for i in x]
     if isinstance(x, (set, frozenset)):
-        return {'set': sorted((_enc(i, _d + 1) for i in x), key=json.dumps)}
+        return {'set': sorted((_enc(i, _d + 1, full) for i in x), key=json.dumps)}
     if isinstance(x, (vc.Person, vc.ElectionParty, vc.BlankVoteOption)):
         return {'cand': type(x).__name__, 'name': getattr(x, 'name', None)}
     return {'repr': type(x).__name__}
-
-
-def _enc_full(x, _d=0):
-    """Candidate objects with all their attributes (the outcome of a candidate object is its own state)."""
-    if hasattr(x, '__dict__') and type(x).__module__.startswith('votelib') and _d < 8:
-        return {'obj': type(x).__name__,
-                'vars': [[k, _enc_full(v, _d + 1)] for k, v in sorted(vars(x).items()) if not k.startswith('_')]}
-    if isinstance(x, dict):
-        return {'dict': sorted(([_enc_full(k, _d + 1), _enc_full(v, _d + 1)] for k, v in x.items()), key=lambda kv: json.dumps(kv[0]))}
-    if isinstance(x, (list, tuple)):
-        return [_enc_full(i, _d + 1) for i in x]
-    return _enc(x)
 
 
 class _Timeout(Exception):
     pass
 
 
-class _guard:
-    """A wall-clock limit for one call (main thread only; elsewhere no limit)."""
-
-    def __init__(self, seconds=0.5):
-        self.seconds = seconds
-        self.active = hasattr(signal, 'setitimer') and threading.current_thread() is threading.main_thread()
-
-    def _raise(self, *_):
-        raise _Timeout()
-
-    def __enter__(self):
-        if self.active:
-            self.old = signal.signal(signal.SIGALRM, self._raise)
-            signal.setitimer(signal.ITIMER_REAL, self.seconds)
-
-    def __exit__(self, *exc):
-        if self.active:
+@contextlib.contextmanager
+def _guard(seconds=0.5):
+    """A wall-clock limit for one call (POSIX main thread only; elsewhere there is no limit)."""
+    active = hasattr(signal, 'setitimer') and threading.current_thread() is threading.main_thread()
+    if active:
+        def on_alarm(*_):
+            raise _Timeout()
+        old = signal.signal(signal.SIGALRM, on_alarm)
+        signal.setitimer(signal.ITIMER_REAL, seconds)
+    try:
+        yield
+    finally:
+        if active:
             signal.setitimer(signal.ITIMER_REAL, 0)
-            signal.signal(signal.SIGALRM, self.old)
-        return False
+            signal.signal(signal.SIGALRM, old)
 
 
 def _try(fn, enc=_enc):
@@ -954,8 +942,6 @@ def _try(fn, enc=_enc):
             return enc(fn())
     except _Timeout:
         return {'err': 'Timeout'}
-    except RecursionError:
-        return {'err': 'RecursionError'}
     except Exception as e:     # exceptions are outcomes too
         return {'err': type(e).__name__}
 
@@ -964,24 +950,36 @@ def _try(fn, enc=_enc):
 # inputs
 
 
+@functools.lru_cache(maxsize=None)
+def _cand_classes():
+    """Candidate classes hashed by name: votelib iterates over sets of candidates in places (AlternativeThresholds),
+    and the default identity hash would make equal inputs built twice give differently ordered results."""
+    import votelib.candidate as vc
+
+    def by_name(base):
+        return type(base.__name__, (base,), {'__hash__': lambda self: hash((base.__name__, self.name)),
+                                             '__module__': base.__module__})
+    return by_name(vc.Person), by_name(vc.PoliticalParty), by_name(vc.Coalition), by_name(vc.NoneOfTheAbove)
+
+
 class _Inputs:
     """Fresh, seed-determined inputs; nothing is shared between calls to outcomes()."""
 
     def __init__(self, rng):
-        import votelib.candidate as vc
+        Person, Party, Coalition, Nota = _cand_classes()
         self.r = rng
         self.cands = list('ABCDE')[:rng.randint(2, 5)]
         props = [{'minority': True, 'region': 'N', 'tier': 1, 'tags': ('x',)}, {'minority': False, 'region': 'S', 'tier': 2},
                  {'region': 'N', 'tags': ()}, {}]
-        self.parties = [vc.PoliticalParty('P%d' % i, number=i + 1, properties=dict(props[i % 4]), withdrawn=(i == 3))
+        self.parties = [Party('P%d' % i, number=i + 1, properties=dict(props[i % 4]), withdrawn=(i == 3))
                         for i in range(rng.randint(2, 4))]
-        self.parties.append(vc.Coalition(self.parties[:2], number=9))
+        self.parties.append(Coalition(self.parties[:2], number=9))
         if rng.random() < .5:
-            self.parties.append(vc.Coalition([vc.PoliticalParty('Q%d' % i) for i in range(3)], name='Q3'))
-        self.persons = [vc.Person('p%d' % i, number=10 - i, candidacy_for=(self.parties[i % len(self.parties)] if i % 4 != 3 else None),
+            self.parties.append(Coalition([Party('Q%d' % i) for i in range(3)], name='Q3'))
+        self.persons = [Person('p%d' % i, number=10 - i, candidacy_for=(self.parties[i % len(self.parties)] if i % 4 != 3 else None),
                                   membership=(self.parties[0] if i % 2 else None), properties=dict(props[i % 4]))
                         for i in range(rng.randint(3, 6))]
-        self.blank = vc.NoneOfTheAbove('NOTA')
+        self.blank = Nota('NOTA')
         self.districts = ['X', 'Y', 'Z'][:rng.randint(2, 3)]
 
     def w(self):
@@ -1006,26 +1004,13 @@ class _Inputs:
             ballot[i:i + 2] = [frozenset(ballot[i:i + 2])]
         return tuple(ballot)
 
-    def ranked(self):
-        return {self.ranked_ballot(): self.w() for _ in range(self.r.randint(2, 6))}
-
-    def approval_ballot(self):
-        return frozenset(self.subset())
-
-    def approval(self):
-        return {self.approval_ballot(): self.w() for _ in range(self.r.randint(2, 6))}
-
-    def score_ballot(self):
-        return frozenset((c, self.r.randint(0, 5)) for c in self.subset())
-
-    def score(self):
-        return {self.score_ballot(): self.r.randint(1, 9) for _ in range(self.r.randint(2, 6))}
-
-    def condorcet(self):
-        return {(a, b): self.r.randint(0, 9) for a in self.cands for b in self.cands if a != b}
-
-    def nested(self, inner=None):
-        return {d: (inner or self.simple)() for d in self.districts}
+    def approval_ballot(self): return frozenset(self.subset())                                          # noqa: E704
+    def score_ballot(self): return frozenset((c, self.r.randint(0, 5)) for c in self.subset())          # noqa: E704
+    def ranked(self): return {self.ranked_ballot(): self.w() for _ in range(self.r.randint(2, 6))}      # noqa: E704
+    def approval(self): return {self.approval_ballot(): self.w() for _ in range(self.r.randint(2, 6))}  # noqa: E704
+    def score(self): return {self.score_ballot(): self.r.randint(1, 9) for _ in range(self.r.randint(2, 6))}  # noqa: E704
+    def condorcet(self): return {(a, b): self.r.randint(0, 9) for a in self.cands for b in self.cands if a != b}  # noqa: E704
+    def nested(self): return {d: self.simple() for d in self.districts}                                 # noqa: E704
 
     def votes(self, vt):
         if vt == 'persons':
@@ -1183,7 +1168,7 @@ def _outcomes(obj, kind, rng, seed, n):
             val = inp.r.choice([0, 1, 2, 3, Fraction(5, 2), 7])
             out.append(_try(lambda: [obj.is_valid(val), bool(obj)]))
         elif kind == 'candidate':
-            return [_try(lambda: obj, _enc_full)]
+            return [_try(lambda: obj, lambda x: _enc(x, 0, True))]
         else:
             return []
     return out
@@ -1252,6 +1237,7 @@ def _selftest(seeds=range(6), per_seed=400, bad_per_seed=200, show_all=False):
     good_by_top, n_by_top = collections.Counter(), collections.Counter()
     failures = collections.defaultdict(list)
     n_total = n_nonerr = n_det = n_failed = 0
+    hazard_stats = collections.Counter()
     for s in seeds:
         rng = random.Random(s)
         for i in range(per_seed):
@@ -1263,6 +1249,7 @@ def _selftest(seeds=range(6), per_seed=400, bad_per_seed=200, show_all=False):
             feats.update(spec_features(spec))
             probs = check_spec(spec, s)
             n_failed += bool(probs)
+            hazard_stats[(bool(spec_hazards(spec)), bool(probs))] += 1
             for category, detail in probs:
                 culprit, sub = _blame(spec, s, category)
                 failures[(category, culprit)].append((spec, sub, detail))
@@ -1276,6 +1263,8 @@ def _selftest(seeds=range(6), per_seed=400, bad_per_seed=200, show_all=False):
                 good_by_top[spec['cls']] += ok
     print('specs %d (%d with a problem); deterministic and evaluated %d, of these with at least one non-error outcome '
           '%d (%.1f%%)' % (n_total, n_failed, n_det, n_nonerr, 100.0 * n_nonerr / max(n_det, 1)))
+    print('spec_hazards vs problems: hazard&problem %d, hazard&clean %d, NO hazard but problem %d, neither %d' % tuple(
+        hazard_stats[k] for k in ((True, True), (True, False), (False, True), (False, False))))
     print('top-level classes that never gave a non-error outcome:', sorted(c for c in n_by_top if not good_by_top[c]))
     print('depth histogram:', sorted(depths.items()))
     print('features:', sorted(feats.items()))
